@@ -122,6 +122,9 @@ func (w *histWorld) callT(s erpc.Session, route, tag string, body interface{}, t
 	}
 	done := make(chan erpc.CallCmd, 1)
 	go func() { done <- s.Call(route, body, res, erpc.WithBodyCodec('j')) }()
+	if timeout < 10*time.Second {
+		timeout = 10 * time.Second // (slow is not hung: the machine may be busy)
+	}
 	select {
 	case cmd := <-done:
 		return cmd.Status(), res
